@@ -514,6 +514,33 @@ def gen_case(seed, c, special_mode=False):
         d = inject(rnd, doc, kind)
         if d:
             faults.append(d)
+    if c % 13 == 4 or rnd.random() < 0.05:
+        # the same fault at the same place in consecutive sets: the first ST..SE block (with whatever was injected into it) is
+        # repeated right behind itself under fresh control numbers; the acknowledgement must itemise it under each set
+        ids = [x['id'] for x in doc]
+        if 'ST' in ids and 'SE' in ids[ids.index('ST'):]:
+            a_ = ids.index('ST')
+            b_ = a_ + ids[a_:].index('SE')
+            if not any(x in ('ST', 'GS', 'GE', 'ISA', 'IEA') for x in ids[a_ + 1:b_]):
+                head = doc[:b_ + 1]
+                d = inject(rnd, head, rnd.choice(('bad_code', 'too_long', 'composite', 'bad_code')))
+                if d and len(head) == b_ + 1:
+                    faults.append(d)
+                ncopy = rnd.choice((1, 1, 2))
+                blocks = []
+                for j in range(ncopy):
+                    blk = [clone(x) for x in doc[a_:b_ + 1]]
+                    setv(blk[0], 1, '%04d' % (9001 + j))
+                    setv(blk[-1], 1, '%04d' % (9001 + j))
+                    blocks.extend(blk)
+                doc[b_ + 1:b_ + 1] = blocks
+                for x in doc[b_ + 1 + len(blocks):]:
+                    if x['id'] == 'GE':
+                        n0 = to_int(getv(x, 0, None))
+                        if n0 is not None:
+                            setv(x, 0, str(n0 + ncopy))
+                        break
+                faults.append('same-fault-in-%d-consecutive-sets' % (ncopy + 1))
     if rnd.random() < 0.08:
         for s in doc:
             if s['id'] == 'ISA':
